@@ -34,7 +34,7 @@ def run(tier):
                 sw2 += ['%s 1 %d 4 | %s' % (head, part, exp) for part in range(4)]
         sweeps = sw2
     scripts = [others[i:i + 500] for i in range(0, len(others), 500)] + [[s] for s in sweeps]
-    res = vf.run_scripts('endian', scripts, 'C15', name='endian')
+    res = vf.run_scripts('endian', scripts, 'C15', name='endian', flavours=4, flav_every=7)
     v.exec_problems(res, 'endian')
     per = 8 * 256 + 128 + 65536 + 20000
     v.cov['traces_validated_against_impl'] += len(cases)
@@ -70,7 +70,7 @@ def run(tier):
                     sc.append('inrange %d %d %s' % (rnd.randint(0, 1), ww, ' '.join(map(str, up + v8[len(up):]))))
             yield sc
 
-    vf.trace_flow(v, 'EndianTrace.tla', 'EndianTrace.cfg', 'endian', e2(), 'endtrace')
+    vf.trace_flow(v, 'EndianTrace.tla', 'EndianTrace.cfg', 'endian', e2(), 'endtrace', flavours=4)
     v.cov['rule'] = ('E1: TLC-prescribed cases (sample family x all functions x alignments) and per-function value sweeps driven by the TLC-emitted lane map; '
                      'E2: random calls validated by TLC. distinct_nontrivial = cases + swept values.')
     v.cov['exhaustive'] = True
